@@ -120,6 +120,24 @@ public class Order {
     }
 }
 `},
+	{Path: "proj/src/main/java/shop/Ids.java", Content: `package shop;
+
+public class Ids {
+    private Ids other;
+
+    public int getId() {
+        return 1;
+    }
+
+    public int getID() {
+        return 2;
+    }
+
+    public int both() {
+        return other.getId() + other.getID() + other.getId() + other.getID();
+    }
+}
+`},
 	{Path: "proj/src/main/java/shop/PriceUtil.java", Content: `package shop;
 
 public class PriceUtil {
@@ -245,6 +263,12 @@ const c08GitLog = `[a1b2c3d] Ann 2020-01-01 feat: add files
 1	0	my docs/keep me.txt
  create mode 100644 my docs/a b.txt
  create mode 100644 my docs/keep me.txt
+
+[a9b0c1d] Ann 2020-01-07 docs: two names that differ in letter case only
+2	0	docs/README.md
+2	0	docs/readme.md
+ create mode 100644 docs/README.md
+ create mode 100644 docs/readme.md
 
 [b8c9d0e] Bob 2020-01-07 docs: move them and write the old names again
 0	0	my docs/{a b.txt => c d.txt}
